@@ -179,6 +179,8 @@ static jwt_value_error_t jwt_set_json(json_t *which, jwt_value_t *jval)
 		if (!jwt_obj_check(which, jval)) {
 			if (json_object_set_new(which, jval->name, json_val))
 				jval->error = JWT_VALUE_ERR_INVALID; // LCOV_EXCL_LINE
+			/* The reference is gone either way */
+			json_val = NULL;
 		}
 
 		/* If things failed, it means we're responsible for this ref */
